@@ -333,6 +333,48 @@ def fg_index_contract():
 
     return {"function": "fg_id_numpy", "stage_only": True, "n_loops": 2, "inputs": inputs, "pre": pre, "inv": inv, "post": post}
 
+# ------------------------------------------------------------------------------------------
+# fg_id_numpy, stage 2 (the assignment loop with its nested loop over the children lists), under the proved
+# postcondition of stage 1: SAFETY and RANGE only -- no KeyError / IndexError on any path for any number of rows,
+# every person receives an id, ids lie in [0, number of opened units). The partition itself (who shares an id)
+# is NOT part of this contract; it stays with the bounded-exhaustive run.
+# ------------------------------------------------------------------------------------------
+def fg_assign_contract():
+    base = fg_index_contract()
+
+    def carry(inp, gh):
+        ix = SDict(A("p_id_to_index!c", Bool), A("p_id_to_index!cv"))
+        ch = SDictList(A("p_id_to_p_ids_children!c", Bool), z3.Array("p_id_to_p_ids_children!ce", Int, z3.ArraySort(Int, Int)), A("p_id_to_p_ids_children!cl"))
+        st = {"p_id_to_index": ix, "p_id_to_p_ids_children": ch}
+        return st, [f for _, f in base["post"](inp, gh, st)]
+
+    def inv(inp, gh, st, k):
+        N, p = inp["N"], inp["p_id"].arr
+        fg, nxt = st["p_id_to_fg_id"], st["next_fg_id"]
+        return [
+            ("B0 bounds", z3.And(0 <= k, k <= N, nxt >= 0)),
+            ("B1 every processed person has an id", z3.ForAll([i], z3.Implies(z3.And(0 <= i, i < k), fg.dom[p[i]]))),
+            ("B2 assigned ids lie below the counter", z3.ForAll([x], z3.Implies(fg.dom[x], z3.And(0 <= fg.val[x], fg.val[x] < nxt)))),
+        ]
+
+    def inner_inv(inp, gh, st_entry, st, t, lst):
+        fg0, fg, nxt = st_entry["p_id_to_fg_id"], st["p_id_to_fg_id"], st["next_fg_id"]
+        return [
+            ("C0 position", z3.And(0 <= t, t <= lst.len)),
+            ("C1 no id is removed", z3.ForAll([x], z3.Implies(fg0.dom[x], fg.dom[x]))),
+            ("C2 assigned ids lie at or below the counter", z3.ForAll([x], z3.Implies(fg.dom[x], z3.And(0 <= fg.val[x], fg.val[x] <= nxt)))),
+        ]
+
+    def post(inp, gh, st):
+        N = inp["N"]
+        Rr, nxt = st["__return__"], st["next_fg_id"]
+        return [
+            ("R0 one id per row", Rr.len == N),
+            ("R1 ids lie in [0, number of opened units)", z3.ForAll([i], z3.Implies(z3.And(0 <= i, i < N), z3.And(0 <= Rr.arr[i], Rr.arr[i] < nxt)))),
+        ]
+
+    return {"function": "fg_id_numpy", "n_loops": 2, "loop_no": 1, "inputs": base["inputs"], "pre": base["pre"], "carry": carry, "inv": inv, "inner_inv": inner_inv, "post": post}
+
 
 KERNELS = {
     "eg_id_numpy": couple_contract("p_id", "p_id_einstandspartner", "p_id_to_eg_id", "next_eg_id"),
@@ -342,6 +384,7 @@ KERNELS = {
     "wthh_id_numpy": wthh_contract(),
     "sum_by_p_id": sum_by_p_id_contract(),
     "fg_id_numpy#index": fg_index_contract(),
+    "fg_id_numpy#assign": fg_assign_contract(),
 }
 
 
@@ -355,4 +398,5 @@ STATE_VARS = {
     "wthh_id_numpy": [("result", "list")],
     "sum_by_p_id": [("out", "arr"), ("map_p_id_to_position", "dict")],
     "fg_id_numpy#index": [("p_id_to_index", "dict"), ("p_id_to_p_ids_children", "dictlist")],
+    "fg_id_numpy#assign": [("p_id_to_index", "dict"), ("p_id_to_p_ids_children", "dictlist"), ("p_id_to_fg_id", "dict"), ("next_fg_id", "int")],
 }
